@@ -322,7 +322,15 @@ def malformed_case(case, ctx, rnd, mech, res):
         res['sample']['mutation'] = bad
         mech[kind] = 1
         outs = {'o': bad} if form == 'dict' else [bad]
-        return expect_raise(run_with(spec, outputs=outs), f"output request for non-existent variable {bad} ({form} form)")
+        # alone, or next to a valid output request (the valid one must not hide the invalid one)
+        mixed = rnd.random() < 0.5
+        if mixed:
+            good = '/'.join(rnd.choice(ref.state_keys))
+            outs = ({'g': good, 'o': bad} if rnd.random() < 0.5 else {'o': bad, 'g': good}) if form == 'dict' else \
+                rnd.choice([[good, bad], [bad, good]])
+            mech['misspelt_output_next_to_valid'] = 1
+        return expect_raise(run_with(spec, outputs=outs), f"output request for non-existent variable {bad} ({form} form"
+                                                           f"{', next to a valid output' if mixed else ''})")
     if kind == 'misspelt_input_paths':
         ins = [k for k in ref.param_keys if ref.kind[k] == 'in']
         if not ins:
@@ -376,10 +384,21 @@ def malformed_case(case, ctx, rnd, mech, res):
     if kind == 'reserved_names':
         name = rnd.choice(['y', 'dy', 'source_idx', 'target_idx', 'pi', 'E', 'I', 'exp', 'sin', 'sqrt', 'x_buffer', 'r_idx', 'u_hist'])
         op = OperatorTemplate(name='op', equations=[f"x' = -x + {name}"], variables={'x': 'output(0.3)', name: 0.5})
-        c = CircuitTemplate(name='c', nodes={'a': NodeTemplate(name='na', operators=[op])})
-        res['sample']['mutation'] = name
+        # the reserved name as a plain declaration, or additionally carrying a node-level value (three routes)
+        route = rnd.choice(['plain', 'plain', 'node_template', 'update_var', 'node_values'])
+        nt = NodeTemplate(name='na', operators={op: {name: 0.75}}) if route == 'node_template' else NodeTemplate(name='na', operators=[op])
+        nt2 = NodeTemplate(name='nb', operators=[op])
+        c = CircuitTemplate(name='c', nodes={'a': nt, 'b': nt2})
+        res['sample']['mutation'] = f'{name} ({route})'
         mech[kind] = 1
-        return expect_raise(lambda: c.get_run_func('f', step_size=dt, vectorize=False, verbose=False), f"reserved variable name {name}")
+        mech['reserved_names_' + route] = 1
+
+        def f():
+            if route == 'update_var':
+                c.update_var(node_vars={f'b/op/{name}': 0.75})
+            kw = {'node_values': {f'b/op/{name}': 0.75}} if route == 'node_values' else {}
+            return c.get_run_func('f', step_size=dt, vectorize=False, verbose=False, **kw)
+        return expect_raise(f, f"reserved variable name {name} ({route})")
     if kind == 'two_outputs':
         op = OperatorTemplate(name='op', equations=["x' = -x + z", "z' = -z"], variables={'x': 'output(0.3)', 'z': 'output(0.2)'})
         c = CircuitTemplate(name='c', nodes={'a': NodeTemplate(name='na', operators=[op])})
@@ -398,14 +417,19 @@ def malformed_case(case, ctx, rnd, mech, res):
     if kind == 'missing_operator_value':
         cs = [k for k in ref.param_keys if ref.kind[k] == 'const']
         k = rnd.choice(cs)
-        which = rnd.choice(['op', 'var'])
-        key = f'{k[0]}/{k[1]}_zz/{k[2]}' if which == 'op' else f'{k[0]}/{k[1]}/{k[2]}_zz'
+        which = rnd.choice(['op', 'var', 'node'])
+        key = f'{k[0]}/{k[1]}_zz/{k[2]}' if which == 'op' else f'{k[0]}/{k[1]}/{k[2]}_zz' if which == 'var' else \
+            misspell('/'.join(k), rnd.randrange(len(k[0].split('/'))))
         res['sample']['mutation'] = key
         mech[kind] = 1
 
         def f():
             t, _ = build.build_python(spec)
             return t.get_run_func('f', step_size=dt, vectorize=False, verbose=False, node_values={key: 0.5})
+        if which == 'node':
+            # a parameter value addressed to a node that does not exist: "at least reported by a warning, never silently dropped"
+            mech['missing_node_value'] = 1
+            return expect_warn_or_raise(f, f"node-level value addressed to a non-existent node ({key})")
         return expect_raise(f, f"node-level value for non-existent {'operator' if which == 'op' else 'variable'} {key}")
     return None
 
@@ -413,7 +437,7 @@ def malformed_case(case, ctx, rnd, mech, res):
 # MANIFEST-BEGIN
 MANIFEST = {
     'technique': 'fault-injection monitor: unsupported option combinations derived from the live backend classes and single-fault mutations of generated valid models; oracle observes exception / warning / return of each request',
-    'level_text': 'The full backend x solver x vectorize x delay matrix (unsupported derived from SUPPORTED_SOLVERS, SUPPORTS_* flags and _validate_backend_args of the live classes) and single-fault mutations of generated valid models (each path component of edges, outputs, inputs and update_var keys misspelt, declared variables removed, reserved names, two outputs, cyclic node, node-level values for missing operators/variables) are submitted; an unsupported or malformed request must raise before anything is returned, inputs and parameter updates to non-existent variables must at least warn. Ring-buffer requests come in several shapes (scalar and matrix edges, next to gamma-kernel or undelayed connections, either declaration order). Held on observed requests only.',
+    'level_text': 'The full backend x solver x vectorize x delay matrix (unsupported derived from SUPPORTED_SOLVERS, SUPPORTS_* flags and _validate_backend_args of the live classes) and single-fault mutations of generated valid models (each path component of edges, outputs, inputs and update_var keys misspelt, declared variables removed, reserved names, two outputs, cyclic node, node-level values for missing operators/variables/nodes; invalid outputs alone and next to valid ones; reserved names with and without node-level values) are submitted; an unsupported or malformed request must raise before anything is returned, inputs and parameter updates to non-existent variables must at least warn. Ring-buffer requests come in several shapes (scalar and matrix edges, next to gamma-kernel or undelayed connections, either declaration order). Held on observed requests only.',
     'level_note': 'The check never asserts that a supported combination succeeds. Torch / JAX / Fortran are imported inside the forked case process.',
 }
 # MANIFEST-END
